@@ -794,6 +794,70 @@ def rule_integer_arith(ctx) -> None:
                        f"float arithmetic: {norm(fl[0]) if fl else ''} (inexact beyond 2**53)", "integer operators only", A.loc(rp, fl[0]) if fl else "")
 
 
+def rule_value_to_int_model(ctx) -> None:
+    """C20.value_to_int.model: value_to_int interpreted as a whole function (helpers of the module stepped into; `re.match` and `int`
+    are leaves with their documented behaviour) on EVERY string over the alphabet {0 1 _ x b u l} up to length 4 and a list of longer
+    texts.  Reference: strip + lower case, the documented envelope (0[box])? digits [ul]{0,3} (its equality with the code's pattern is
+    the automata rule C20.value_to_int), value = int(digits, base) where Python accepts the digit string - so a text Python's own
+    integer grammar refuses (misplaced underscore, digit outside the base) is refused, never repaired."""
+    import itertools
+    import re as _re
+    fn = ctx.func(MISC, "value_to_int")
+    env_re = _re.compile(r"(?P<prefix>0[box])?(?P<number>[0-9a-f_]+)(?P<suffix>[ul]{0,3})$")
+
+    def ref(text: str):
+        m = env_re.match(text.strip().lower()) if text != "" else None
+        if not m:
+            return "raise"
+        try:
+            return int(m.group("number"), {"0b": 2, "0o": 8, "0x": 16, None: 10}[m.group("prefix")])
+        except ValueError:
+            return "raise"
+
+    def leaves(c: ast.Call, ev):
+        f = norm(c.func)
+        if f in ("re.match", "re.fullmatch", "re.search") and len(c.args) == 2 and not c.keywords:
+            pat, subj = ev.ev(c.args[0]), ev.ev(c.args[1])
+            if isinstance(pat, str) and isinstance(subj, str):
+                m = getattr(_re, f.split(".")[1])(pat, subj)
+                return ordereval.Obj(_match=m) if m else None
+        if isinstance(c.func, ast.Attribute) and c.func.attr in ("group", "groupdict", "groups") and not c.keywords:
+            try:
+                o = ev.ev(c.func.value)
+            except ordereval.Unsupported:
+                return ordereval.NOT_MODELLED
+            if isinstance(o, ordereval.Obj) and "_match" in o.__dict__:
+                r = getattr(o.__dict__["_match"], c.func.attr)(*[ev.ev(a) for a in c.args])
+                return tuple(r) if isinstance(r, list) else r
+        if f == "int" and 1 <= len(c.args) + len(c.keywords) <= 2 and all(k.arg == "base" for k in c.keywords):
+            a0 = ev.ev(c.args[0])
+            b = ev.ev(c.args[1]) if len(c.args) > 1 else (ev.ev(c.keywords[0].value) if c.keywords else None)
+            if isinstance(a0, str) and (b is None or isinstance(b, int)):
+                try:
+                    return int(a0, b) if b is not None else int(a0)
+                except ValueError:
+                    raise ordereval.ModelRaise(ordereval.Outcome("raise", "ValueError", c))
+        return ordereval.NOT_MODELLED
+    sym_map = {"Endianness.LITTLE": ordereval.Obj(value="little"), "Endianness.BIG": ordereval.Obj(value="big")}
+    calls = ctx.model_calls(leaves, sym_map, module=MISC)
+    texts = ["".join(t) for k in range(1, 5) for t in itertools.product("01_xbul", repeat=k)]
+    texts += ["", "0xff_ff", "0b111_1", "0XFF", " 12\n", "0o17", "0o18", "1__0", "0x_1", "0x1_ul", "0x12_", "_12", "ulu", "08", "0b2", "9", "a", "0xg", "12ul", "0x7fffffffull", "1lll", "1llll",
+              "-1", "+1", "1 2", "0x", "0b", "0o", "0xabcdef", "ABCDEF", "0b0b1", "123456789012345678901234567890"]
+    bad = []
+    for t in texts:
+        try:
+            out = ordereval.Evaluator({"value": t, "default": None}, ctx.fold_sym(fn, sym_map), opaque_return=False, call_value=calls).run(A.body_of(fn.node))
+        except ordereval.Unsupported as ex:
+            raise AnalysisError(f"C20.value_to_int.model: {fn.qual} left the fragment on {t!r}: {ex}")
+        got = "raise" if out.kind == "raise" else out.value
+        if got != ref(t):
+            bad.append(f"value_to_int({t!r}) = {got!r}, the documented grammar gives {ref(t)!r}")
+    ctx.chk.analysed(fn.qual)
+    ctx.chk.exhaustive_rules.add("C20.value_to_int.model")
+    ctx.chk.decide(not bad, "C20.value_to_int.model", fn.qual, f"agrees with the documented number grammar on every text over {{0,1,_,x,b,u,l}} up to length 4 and {len(texts) - 2800} longer texts ({len(texts)} texts)",
+                   "; ".join(bad[:3])[:500], "", A.loc(MISC, fn.node))
+
+
 def run(ctx) -> None:
     ctx.chk.explain("C20: order-type decision of comparison-only guards (check_range, align, extend_block, swap16/32, BCD, block-size helpers), "
                     "regex language equality for value_to_int (automata product), bit provenance for swap16, length algebra for the append-only padding helpers, "
@@ -804,6 +868,7 @@ def run(ctx) -> None:
     ctx.rule(rule_align_block)
     ctx.rule(rule_swaps)
     ctx.rule(rule_value_to_int)
+    ctx.rule(rule_value_to_int_model)
     ctx.rule(rule_strides)
     ctx.rule(rule_bytes_cnt)
     ctx.rule(rule_bcd)
